@@ -1,2 +1,114 @@
-def run(tier, seed):
-    return 0
+"""miri-sched (C20): concurrent parse calls under Miri's seeded scheduler: preemption inside
+rule bodies, data races and undefined behaviour.  One Miri seed is one repeatable execution."""
+import json
+import os
+import re
+import subprocess
+import time
+
+from common import EVIDENCE_DIR, SIM_DIR, TARGET, HarnessError, cargo_env, log, write_replay
+
+MIRI_TARGET = os.path.join(TARGET, "miri")
+
+
+def miri_cmd(flags, args):
+    env = dict(os.environ)
+    env.update(cargo_env())
+    env["SIMCORPUS_SMALL"] = "1"
+    env["MIRIFLAGS"] = flags
+    cmd = ["cargo", "+nightly", "miri", "run", "--offline", "-q", "-p", "miri_threads", "--target-dir", MIRI_TARGET, "--"] + [str(a) for a in args]
+    return cmd, env
+
+
+def run_miri(flags, args, timeout):
+    cmd, env = miri_cmd(flags, args)
+    try:
+        p = subprocess.run(cmd, cwd=SIM_DIR, env=env, capture_output=True, timeout=timeout)
+    except subprocess.TimeoutExpired:
+        raise HarnessError("miri run timed out after %ds" % timeout)
+    return p
+
+
+def classify(stderr, stdout):
+    text = stderr + "\n" + stdout
+    if "DIFFERENCE" in stdout:
+        return "result-differs-from-sequential"
+    if "Data race detected" in text or "data race" in text.lower():
+        return "data-race"
+    if "Undefined Behavior" in text:
+        return "undefined-behaviour"
+    if "panicked at" in text:
+        return "panic"
+    if "deadlock" in text.lower():
+        return "deadlock"
+    return None
+
+
+def run(tier, seed, replay_path=None):
+    t0 = time.time()
+    nseeds = int(os.environ.get("VERIF_MIRI_SEEDS", 8 if tier == "quick" else 128))
+    njobs = 16
+    start = seed % 100000
+    prog_seed = seed & 0xFFFF
+    base = "-Zmiri-preemption-rate=0.1 -Zmiri-disable-isolation"
+    if replay_path:
+        r = json.load(open(replay_path))
+        p = run_miri(r["miriflags"], r["args"], 1800)
+        kind = classify(p.stderr.decode(errors="replace"), p.stdout.decode(errors="replace"))
+        if p.returncode != 0 and kind:
+            log(p.stdout.decode(errors="replace")[-1500:])
+            log("\n".join(l for l in p.stderr.decode(errors="replace").splitlines() if "error" in l.lower() or "race" in l.lower())[-1500:])
+            log("VIOLATION property=C20 replay=%s" % replay_path)
+            return 1
+        log("replay: Miri run is clean now")
+        return 0
+    flags = "-Zmiri-many-seeds=%d..%d %s" % (start, start + nseeds, base)
+    p = run_miri(flags, [prog_seed, njobs], 3600)
+    out = p.stdout.decode(errors="replace")
+    err = p.stderr.decode(errors="replace")
+    ok_runs = out.count("MIRI_THREADS ok")
+    info = {"seeds": nseeds, "seed_range": [start, start + nseeds], "program_seed": prog_seed, "jobs": njobs, "threads": 3,
+            "clean_runs": ok_runs, "preemption_rate": 0.1, "wall_s": None, "violation": None}
+    rc = 0
+    if p.returncode != 0:
+        kind = classify(err, out)
+        if kind is None:
+            raise HarnessError("miri run failed without a recognisable verdict:\n" + err[-3000:])
+        # find one failing seed so that the replay is a single repeatable execution
+        failing = None
+        m = re.search(r"seed (\d+)", "\n".join(l for l in err.splitlines() if "seed" in l.lower() and ("fail" in l.lower() or "error" in l.lower())))
+        cands = [int(m.group(1))] if m else []
+        cands += [s for s in range(start, start + nseeds) if s not in cands]
+        for s in cands[: nseeds + 1]:
+            q = run_miri("-Zmiri-seed=%d %s" % (s, base), [prog_seed, njobs], 1800)
+            if q.returncode != 0 and classify(q.stderr.decode(errors="replace"), q.stdout.decode(errors="replace")):
+                failing = s
+                err = q.stderr.decode(errors="replace")
+                out = q.stdout.decode(errors="replace")
+                break
+        detail = "\n".join(l for l in (out + "\n" + err).splitlines() if any(w in l for w in ("DIFFERENCE", "error", "race", "Undefined", "panicked")))[:3000]
+        path = write_replay("C20", "%d-miri-%s-%s" % (seed, kind, failing), {
+            "property": "C20", "kind": "miri:" + kind, "seed": seed, "miri_seed": failing,
+            "miriflags": ("-Zmiri-seed=%d %s" % (failing, base)) if failing is not None else flags, "args": [prog_seed, njobs],
+            "detail": detail, "note": "replay: ./check C20 --replay <this file> re-runs this Miri seed"})
+        log("VIOLATION property=C20 replay=%s" % path)
+        log("  miri: %s (miri seed %s)" % (kind, failing))
+        info["violation"] = kind
+        rc = 1
+    elif ok_runs != nseeds:
+        raise HarnessError("miri reported success but only %d of %d runs printed their verdict" % (ok_runs, nseeds))
+    info["wall_s"] = round(time.time() - t0, 1)
+    # merge into the evidence file written by the parse-sim part
+    ep = os.path.join(EVIDENCE_DIR, "C20.json")
+    ev = json.load(open(ep))
+    ev["coverage"]["miri_sched"] = info
+    ev["wall_s"] = round(ev["wall_s"] + info["wall_s"], 2)
+    if rc:
+        ev["violations"] = ev.get("violations", 0) + 1
+    with open(ep + ".tmp", "w") as f:
+        json.dump(ev, f, indent=1, ensure_ascii=False)
+        f.write("\n")
+    os.replace(ep + ".tmp", ep)
+    if rc == 0:
+        log("C20 miri-sched: %d seeds x %d jobs on 3 threads, no data race, UB or differing result (%.1fs)" % (nseeds, njobs, info["wall_s"]))
+    return rc
